@@ -16,7 +16,11 @@ RULE = ("core: seeded read matrices (1..6 reads, 2..6 columns, alleles 0/1, qual
         "(two children); plus the hand-made matrices of tests/test_genotyping.py; small streams for the value dimensions: qualities "
         "1, 2, 40..300 (incl. the >= 256 code path), recombination costs up to 1000, hard (zero) priors, 7-8 active reads, "
         "pedigree roles in every index order (child not last, father not first), positions=None vs explicit positions, the "
-        "empty read set; every table is queried twice (second time in reverse order). The real GenotypeDPTable runs in a "
+        "empty read set, 25-30 columns (check-point stride 5), and coverage 9..13 (2^k bipartitions, beyond batch sizes "
+        "of the Gray-code enumeration) with a gapped read followed by covering reads in the high-coverage column -- for "
+        "these L1 is the chain form over the specification columns themselves (no tables; C08_chain_form), compared at "
+        "the column of highest coverage only, and there is no L2 (the model's association-list tables are too slow for "
+        "2^k >= 512); every table is queried twice (second time in reverse order). The real GenotypeDPTable runs in a "
         "child process; its likelihoods (doubles -> exact rationals) are compared inside Coq, relative tolerance 1e-9, "
         "with (L1) the plain brute-force posterior over (bipartition, transmission path, assignment path) on tiny "
         "instances and its per-bipartition chain form on all (both proved equal to posterior_spec, C08_spec_variants) "
@@ -37,7 +41,10 @@ RULE = ("core: seeded read matrices (1..6 reads, 2..6 columns, alleles 0/1, qual
         "handed to the writer (L2); the DP instance the CLI builds (reads, recombination costs, priors, pedigree) is recorded in "
         "the child process, L1: the output VCF's GL triple is a distribution, GT its unique maximum above the threshold "
         "or ./., GQ the rounded phred value of the other mass (on the VCF alone, tolerance 1e-4 for float formatting); "
-        "L2: GL/GT/GQ against the writer model applied to fb_run of the recorded instance. A case is non-trivial if "
+        "L2: GL/GT/GQ against the writer model applied to fb_run of the recorded instance. Writer-direct stream: "
+        "determine_genotype + GenotypeVcfWriter.write_genotypes driven as in the tail of run_genotype on chosen "
+        "likelihood tables (exact zeros -> GL floor -1000 and GQ cap 10000, exact ties, maximum exactly at / next to the "
+        "threshold, denormal and tiny values, thresholds 0..200, samples without table), same per-call rules. A case is non-trivial if "
         "some column has >= 2 active reads and some read ends before the last column or starts after the first "
         "(projections are not the identity); distinct = distinct instance.")
 TRUSTED = [
